@@ -72,8 +72,9 @@ def obligations(tier: str, oracle: str = ORACLE) -> list[dict]:
             ob([k], 2, 2, 200, [1, 2], True, None, True)
         for k in ['unfold', 'batch_unfold', 'unfold_all']:
             ob([k], 2, 3, 200, [1, 5], False, None, True)
-        for k1, k2 in (('renumber', 'pop'), ('insert_qudit', 'replace_gate'), ('pop_qudit', 'insert_gate')):
+        for k1, k2 in (('renumber', 'pop'), ('pop_qudit', 'insert_gate')):
             ob([k1, k2], 3, 1, 200, [2], False, None, True)
+        ob(['insert_qudit', 'replace_gate'], 2, 1, 200, [2], False, None, True)
         # a replace that re-keys the dependency node, then a removal that deletes a cycle (3-op pre-states)
         for q in (0, 1):      # pre-state pattern 1-qudit, 2-qudit, 1-qudit op (symbolic locations and cycles)
             ob(['replace_perm', 'pop'], 2, 3, 240, [1, 2], False, {'0': 0, '1': q, '5': 1, '10': 0}, True)
